@@ -1,4 +1,4 @@
-import SqlgrepModel.Lemmas.AggBatch
+import SqlgrepModel.Lemmas.AggJoin
 /-
 C04 — GROUP BY: one row per group, every aggregate computed from that group's rows.
 
@@ -183,7 +183,21 @@ without GROUP BY, WHERE, HAVING incl. hidden aggregates, transforms, DISTINCT, L
 specification fixes the table `t` and the input is outside the two known deviation classes (D10, D15), then feeding
 the rows to `execute_update` one after the other succeeds, and `execute_result` + LIMIT shows exactly `t`:
 one row per distinct key in ascending order with NULL first, every cell computed from exactly the rows of its group,
-HAVING on the group's own key and aggregates, no group dropped or duplicated. -/
+HAVING on the group's own key and aggregates, no group dropped or duplicated.
+
+**What "the specification fixes the table" leaves out** (`table O q envs = none`, so the theorem says nothing there —
+each of these is an ordinary input, not an exotic one):
+* a GROUP BY key that is an ARRAY, the REAL key `-0.0`, a REAL key that is a NaN other than the canonical one (all other
+  REAL keys, `0.0`, ±∞ and the canonical NaN included, are covered): two such keys are equal in the value order but print
+  differently, and which one a group's row shows depends on the engine's history (finding D60, `Props/C11`);
+* SUM / AVG / STDDEV over REALs whose first non-NULL addend is `-0.0` (`0.0 + -0.0 ≠ -0.0`: the sign of a zero sum);
+* the non-NULL arguments of one aggregate in one group having more than one type (MIN/MAX/PERCENTILE/ARRAY_AGG; SUM/AVG
+  /STDDEV need all INT, all REAL or all INTERVAL — STDDEV not INTERVAL; BOOL_AND/OR all BOOLEAN; STRING_AGG all TEXT);
+* an INT / INTERVAL partial sum (for STDDEV also a square or a partial sum of squares) outside the 64-bit range;
+* any evaluation error in WHERE, a key, an argument, a transform or HAVING; `COUNT(DISTINCT *)`; PERCENTILE with p outside
+  [0, 1]; a select-list or HAVING key reference that names no GROUP BY part (`keyRefsValid`).
+The evidence of a run records how many of the evaluated cases the specification decided
+(`spec_comparisons_impl_vs_lean_spec` against `evaluations`). -/
 theorem agg_refines_spec {O : Oracles} {q : AggStmt} (hwf : StmtWF q) (envs : List Env) {t : List (List Value)}
     (hspec : table O q envs = some t) (hclass : deviationClass O q envs = "") :
     (aggRun O q envs {}).bind (fun st => finalResult O q { agg := st }) = .ok { columns := q.items.map (·.name), rows := t } :=
@@ -207,15 +221,28 @@ theorem updates_do_not_fail {O : Oracles} {q : AggStmt} (hwf : StmtWF q) (envs :
     exact aggRun_progress envs (coupled_init O q) hr (by simpa using hfolds) hkeys
 
 /-- **`agg_refines_spec` at the level of the check itself.** `runBatch` is the function the compiled driver executes
-for a `batch` case (the `FileExecutor` loop over all files and lines, admission of lines, the engine, the final table
-printed once, the line count); `Spec.Agg.batch` is the specification's answer that `./check` compares with the
+for a `batch` case (the `FileExecutor` loop over all files and lines, admission of lines, the hash index of a JOIN, the
+engine, the final table printed once, the line count); `Spec.Agg.batch` is the specification's answer that `./check` compares with the
 implementation's. Whenever the specification answers and names no known deviation class, the two are EQUAL — so a
 case on which implementation and model agree (correspondence) and the class is empty is a case on which the
-implementation meets the specification, and vice versa. -/
+implementation meets the specification, and vice versa.
+
+`Spec.Agg.batch` answers `none` — and this theorem is then silent — on everything `agg_refines_spec` lists (ARRAY keys, the
+REAL keys `-0.0` and non-canonical NaN, a REAL sum starting at `-0.0`, mixed-type arguments in a group, overflow, evaluation
+errors, p outside [0, 1], invalid key references), and in addition when some input line is unreadable (C12), when a line of
+the joined file is unreadable or a join column is missing (C05), and it is stated for `stopAt = none` (no interrupt, C19). -/
 theorem batch_model_eq_spec {O : Oracles} {qy : Query} {q : AggStmt} (hq : qy.stmt = .aggregate q) (hwf : StmtWF q)
     (joined : List FileLine) (files : List (List FileLine)) {ro : RunOut}
     (h : Spec.Agg.batch O qy q joined files = some (ro, "")) : runBatch O qy joined files none = ro :=
   batch_refines_spec hq hwf joined files h
+
+/-- **aggregates over a JOIN**: the rows the statement sees are the nested loop of C05 (`Spec.Join.specJoin`: for every
+admitted input row, in input order, one row per admitted joined row with an equal non-NULL key, in file order; never the
+NULL-padded row), and the table is the specification's table over those rows -/
+theorem batch_over_join_model_eq_spec {O : Oracles} {qy : Query} {q : AggStmt} (hq : qy.stmt = .aggregate q) (hwf : StmtWF q)
+    {j : JoinInfo} (hj : qy.join = some j) (joined : List FileLine) (files : List (List FileLine)) {ro : RunOut}
+    (h : Spec.Agg.batch O qy q joined files = some (ro, "")) : runBatch O qy joined files none = ro :=
+  batch_refines_spec_join hq hwf hj joined files h
 
 /-! ### negation witnesses of the two open findings (kernel-evaluated; the harness replays them on the implementation) -/
 
